@@ -312,6 +312,9 @@ pub fn parse_multi_branch_conditional(
             if let Some(rest) = header.strip_prefix("else:") {
                 current_condition = None;
                 if !rest.trim().is_empty() {
+                    // every branch of a multi-line block starts on a new line (inklecate
+                    // opens it with "\n"), also when its content follows on the same line
+                    current_nodes.push(Node::Newline);
                     current_nodes.extend(tokenize_inline_content(rest.trim())?);
                     if line.had_newline {
                         current_nodes.push(Node::Newline);
@@ -397,6 +400,7 @@ pub fn parse_multi_branch_conditional(
                         current_nodes.append(&mut nodes);
                     }
                 } else {
+                    current_nodes.push(Node::Newline);
                     current_nodes.extend(tokenize_inline_content(rest_trimmed)?);
                     if line.had_newline {
                         current_nodes.push(Node::Newline);
@@ -501,6 +505,8 @@ fn parse_switch_conditional(
             }
 
             let header = header.trim_start();
+            // every branch starts on a new line (inklecate opens it with "\n" after the `pop`)
+            current_nodes.push(Node::Newline);
             if let Some(rest) = header.strip_prefix("else:") {
                 current_case = None; // else branch
                 let rest = rest.trim();
